@@ -8,6 +8,7 @@
 #include "vata_util.hh"
 #include "gen.hh"
 #include <vata/util/binary_relation.hh>
+#include <fstream>
 
 #ifdef LIBVATA_VERIF
 #  include "util/verif_hooks.hh"
@@ -93,6 +94,91 @@ static void expectNotImplemented(const std::string& prop, const std::string& sel
 
 using gen::maxTuples;
 
+// ---------------------------------------------------------------- G4: cut-downs of shipped automata
+// (realistic symbols and rule shapes, small enough for the reference model)
+struct CorpusAut { Alpha al; RTA a; };
+static std::vector<CorpusAut>& corpus()
+{
+	static std::vector<CorpusAut> c; static bool loaded = false;
+	if (loaded) return c; loaded = true;
+	std::map<std::pair<std::string, size_t>, int> symIdx; Alpha al;   // one alphabet for the whole directory
+	const char* dir = "/repo/tests/aut_timbuk_smaller/"; const char* files[] = {"A0053", "A0054", "A0055", "A0056", "A0057", "A0058", "A0059", "A0060", "A0062", "A0063", "A0064", "A0065", "A0070", "A0080", "A0082", "A0083"};
+	for (auto f : files)
+	{
+		std::ifstream in(std::string(dir) + f); if (!in) continue; std::stringstream ss; ss << in.rdbuf();
+		try
+		{
+			auto d = parser().ParseString(ss.str()); CorpusAut ca; std::map<std::string, St> ids;
+			auto id = [&](const std::string& n) { auto it = ids.find(n); if (it != ids.end()) return it->second; St v = ids.size(); ids[n] = v; return v; };
+			for (auto& t : d.transitions)
+			{
+				auto key = std::make_pair(t.second, t.first.size()); auto it = symIdx.find(key);
+				if (it == symIdx.end()) { it = symIdx.insert(std::make_pair(key, static_cast<int>(al.rank.size()))).first; al.rank.push_back(static_cast<int>(t.first.size())); }
+				RRule r; r.sym = it->second; for (auto& ch : t.first) r.ch.push_back(id(ch)); r.par = id(t.third); ca.a.rules.insert(r);
+			}
+			for (auto& fs : d.finalStates) ca.a.fin.insert(id(fs));
+			c.push_back(ca);
+		}
+		catch (std::exception&) { }
+	}
+	for (auto& x : c) x.al = al;
+	return c;
+}
+// sub-automaton on the k states found first top-down from `root` (which becomes the final state)
+static RTA cutDown(vh::Rng& g, const RTA& src, St root, size_t k)
+{
+	std::map<St, std::vector<const RRule*>> byPar; for (auto& r : src.rules) byPar[r.par].push_back(&r);
+	std::set<St> in{root}; std::vector<St> q{root};
+	for (size_t i = 0; i < q.size() && in.size() < k; ++i)
+	{
+		auto rs = byPar[q[i]]; std::shuffle(rs.begin(), rs.end(), g);
+		for (auto r : rs) for (St c : r->ch) if (in.size() < k && in.insert(c).second) q.push_back(c);
+	}
+	RTA out; out.fin.insert(root);
+	for (auto& r : src.rules) { bool ok = in.count(r.par) != 0; for (St c : r.ch) if (!in.count(c)) ok = false; if (ok) out.rules.insert(r); }
+	return out;
+}
+// bottom-up variant: grow a productive set of k states from the leaf rules; the state added last is final
+static RTA cutUp(vh::Rng& g, const RTA& src, size_t k)
+{
+	std::vector<const RRule*> rules; for (auto& r : src.rules) rules.push_back(&r); std::shuffle(rules.begin(), rules.end(), g);
+	std::set<St> in; St last = 0; bool grew = true;
+	while (in.size() < k && grew)
+	{
+		grew = false;
+		for (auto r : rules)
+		{
+			if (in.count(r->par)) continue; bool ok = true; for (St c : r->ch) if (!in.count(c)) ok = false;
+			if (ok && g.chance(2, 3)) { in.insert(r->par); last = r->par; grew = true; if (in.size() >= k) break; }
+		}
+	}
+	RTA out; if (in.empty()) return out; out.fin.insert(last);
+	for (auto& r : src.rules) { bool ok = in.count(r.par) != 0; for (St c : r.ch) if (!in.count(c)) ok = false; if (ok) out.rules.insert(r); }
+	return out;
+}
+static bool genCorpusPair(vh::Rng& g, Alpha& al, RTA& a, RTA& b, std::string& kind)
+{
+	auto& c = corpus(); if (c.empty()) return false;
+	const CorpusAut& x = g.pick(c); al = x.al; std::set<St> ss = x.a.states(); std::vector<St> st(ss.begin(), ss.end());
+	St root = g.chance(1, 2) && !x.a.fin.empty() ? *x.a.fin.begin() : st[g.below(st.size())];
+	a = cutDown(g, x.a, root, static_cast<size_t>(g.range(4, 10)));
+	if (g.chance(2, 3)) { a = cutUp(g, x.a, static_cast<size_t>(g.range(3, 9))); if (!a.fin.empty()) root = *a.fin.begin(); }
+	int k = static_cast<int>(g.below(4));
+	if (k == 0 && g.chance(1, 2)) { b = cutUp(g, x.a, static_cast<size_t>(g.range(4, 12))); kind = "G4-corpus-bottom-up"; k = 99; }
+	if (k == 99) { }
+	else if (k == 0) { b = cutDown(g, x.a, root, static_cast<size_t>(g.range(6, 14))); kind = "G4-corpus-same-root"; }
+	else if (k == 1) { const CorpusAut& y = g.pick(c); std::set<St> ys = y.a.states(); std::vector<St> yv(ys.begin(), ys.end()); b = cutDown(g, y.a, yv[g.below(yv.size())], static_cast<size_t>(g.range(4, 12))); kind = "G4-corpus-other"; }
+	else if (k == 2) { b = gen::mutate(g, al, a); kind = "G4-corpus-mutated"; }
+	else { b = a; RTA e = cutDown(g, x.a, st[g.below(st.size())], 6); b = gen::unionRM(a, gen::shiftStates(e, 1000)); if (g.chance(1, 2)) b.fin.insert(1000 + *e.fin.begin()); kind = "G4-corpus-superset"; }
+	a = rm::densify(a); b = rm::densify(b);
+	{	// restrict the alphabet to the symbols the pair uses (a tree with any other symbol is rejected by both)
+		std::map<int, int> remap; Alpha small;
+		auto mapSym = [&](RTA& x) { RTA y; y.fin = x.fin; for (auto r : x.rules) { auto it = remap.find(r.sym); if (it == remap.end()) { it = remap.insert(std::make_pair(r.sym, static_cast<int>(small.rank.size()))).first; small.rank.push_back(al.rank[r.sym]); } r.sym = it->second; y.rules.insert(r); } x = y; };
+		mapSym(a); mapSym(b); al = small;
+	}
+	return !a.rules.empty();
+}
+
 static void genCase(uint64_t idx, vh::Rng& g, Alpha& al, RTA& a, RTA& b, std::string& kind, int S, int Rn)
 {
 	static gen::Exhaustive exPair(2, 2);
@@ -102,6 +188,7 @@ static void genCase(uint64_t idx, vh::Rng& g, Alpha& al, RTA& a, RTA& b, std::st
 		al = gen::sigma0(); kind = "G1-pair"; uint64_t n = exPair.size(), k = (idx * 2654435761ull + R->seed * 7919) % (n * n);
 		a = exPair.get(k % n); b = exPair.get(k / n);
 	}
+	else if (g.below(100) < static_cast<uint64_t>(R->param("corpus_percent", 6)) && genCorpusPair(g, al, a, b, kind)) { }
 	else gen::genPair(g, S, Rn, al, a, b, kind, true);
 }
 
